@@ -19,6 +19,9 @@ REQUIRED_THEOREMS = [
     "Ink.C04.int_div_defined", "Ink.C04.int_div_fault", "Ink.C04.int_mod_defined", "Ink.C04.int_mod_fault",
     "Ink.C04.int_results_inRange", "Ink.C04.native_call_no_panic", "Ink.C04.popEval_no_panic",
     "Ink.C04.step_error_recorded", "Ink.C04.error_is_reported", "Ink.C04.reset_after_error_fresh",
+    "Ink.C04.native_call_ok_or_err", "Ink.C04.popEvalMultiple_no_panic", "Ink.C04.int_unary_inRange",
+    "Ink.C04.int_call_results_inRange", "Ink.C04.error_blocks_continue", "Ink.C04.reset_independent_of_state",
+    "Ink.C04.reset_after_error_no_errors", "Ink.C04.continueSingleStep_err_origin",
 ]
 RULE = ("a case = (a) one fault-prone expression tree (operand types chosen at random with probability 0.35, plus the "
         "ill-typed part of the exhaustive depth-1 enumeration), compiled and played; or (b) one fault-prone program "
